@@ -240,8 +240,9 @@ def main(argv=None):
         "violations": 0 if rc == 0 else (len(new_viol) or 1),
         "verdict": verdict, "replay": replay_rel,
     }
-    os.makedirs(os.path.join(VERIF, "evidence"), exist_ok=True)
-    with open(os.path.join(VERIF, "evidence", pid + ".json"), "w") as f:
+    evdir = os.environ.get("VERIF_EVIDENCE_DIR") or os.path.join(VERIF, "evidence")
+    os.makedirs(evdir, exist_ok=True)
+    with open(os.path.join(evdir, pid + ".json"), "w") as f:
         json.dump(ev, f, indent=1)
     print(f"{pid} {tier} seed={seed}: {len(lines)} cases, {st['discharged']}/{st['obligations']} theorems, "
           f"{len(disagreements)} disagreements, {len(flagged)} oracle flags, verdict={verdict}, {ev['wall_s']}s")
